@@ -100,8 +100,245 @@ theorem NodeOK.of_same {a b : Node} (h : NodeOK hash a)
 
 theorem NodeOK.bump {nd : Node} (h : NodeOK hash nd) (hd : nd.tab.dummy = false) :
     NodeOK hash nd.bump := by
-  apply h.of_same rfl rfl ?_ rfl rfl rfl (fun _ => rfl) (fun _ => rfl) (fun _ => rfl)
+  refine h.of_same (b := nd.bump) rfl rfl ?_ rfl rfl rfl (fun _ => rfl) (fun _ => rfl) (fun _ => rfl)
   intro hp
   rw [hp] at hd; cases hd
+
+theorem SlotOK.congr {a b : Node} {y : Nat} (h : SlotOK hash a y) (h1 : b.tab.ctl y = a.tab.ctl y)
+    (h2 : b.tab.val y = a.tab.val y) (h3 : claimAt b y = claimAt a y) : SlotOK hash b y := by
+  unfold SlotOK at h ⊢
+  rw [h1, h2, h3]; exact h
+
+/-- the mirrored byte of a bucket whose main byte is negative is EMPTY -/
+theorem NodeOK.mirror_empty {nd : Node} (h : NodeOK hash nd) (hd : nd.tab.dummy = false) {j : Nat}
+    (hj : j < 15) (hneg : nd.tab.ctl j < 0) : nd.tab.ctl (nd.tab.n + j) = emptyCtl := by
+  rcases h.mirror hd j hj with hm | ⟨h1, h2⟩
+  · exact hm
+  · rw [h2] at h1; exact absurd h1 (Int.not_le.2 hneg)
+
+/-! ### winning the slot CAS: EMPTY → BUSY, the bucket is claimed for the key -/
+
+theorem casWin_le {nd : Node} (h : NodeOK hash nd) (hd : nd.tab.dummy = false) {i key : Nat}
+    (hi : i < nd.tab.n) (he : nd.tab.ctl i = emptyCtl) :
+    NodeLe nd ((nd.setCtl i busyCtl).setClaim i key) := by
+  have hr := h.real hd
+  have hil : i < nd.tab.ctrl.length := by rw [hr.ctrlLen]; omega
+  have hcl : i < (nd.setCtl i busyCtl).claim.length := by rw [setCtl_claim, hr.claimLen]; exact hi
+  refine ⟨rfl, rfl, ?_, fun _ _ hv => hv, ?_, ?_, fun _ hx => hx⟩
+  · intro x hx
+    show (nd.setCtl i busyCtl).tab.ctl x = _
+    rw [setCtl_ctl _ _ _ hil]
+    split
+    · next e => subst e; rw [he] at hx; exact absurd hx (by decide)
+    · rfl
+  · intro y k hk
+    rw [setClaim_claimAt _ _ _ hcl]
+    split
+    · next e => subst e; rw [(h.slot_empty hd hi he).2] at hk; cases hk
+    · exact hk
+  · intro y hn hne
+    rw [setClaim_claimAt _ _ _ hcl] at hne
+    split at hne
+    · next e => subst e; exact ⟨hd, hi, he⟩
+    · exact absurd hn hne
+
+theorem NodeOK.casWin {nd : Node} (h : NodeOK hash nd) (hd : nd.tab.dummy = false) {i key : Nat}
+    (hi : i < nd.tab.n) (he : nd.tab.ctl i = emptyCtl)
+    (hreach : ReachC nd.tab (nd.tab.baseOf (hash key)) i) :
+    NodeOK hash ((nd.setCtl i busyCtl).setClaim i key) := by
+  have hr := h.real hd
+  have hle := casWin_le (key := key) h hd hi he
+  have hil : i < nd.tab.ctrl.length := by rw [hr.ctrlLen]; omega
+  have hcl : i < (nd.setCtl i busyCtl).claim.length := by rw [setCtl_claim, hr.claimLen]; exact hi
+  have hctl : ∀ y, ((nd.setCtl i busyCtl).setClaim i key).tab.ctl y = if y = i then busyCtl else nd.tab.ctl y :=
+    fun y => setCtl_ctl _ _ _ hil y
+  have hclaim : ∀ y, claimAt ((nd.setCtl i busyCtl).setClaim i key) y = if y = i then some key else claimAt nd y :=
+    fun y => setClaim_claimAt _ _ _ hcl y
+  refine ⟨Or.inr ⟨hd, hr.pow2, hr.ge16, ?_, hr.valsLen⟩, ?_, ?_, ?_, ?_, ?_⟩
+  · show (nd.setCtl i busyCtl).tab.ctrl.length = _
+    rw [setCtl_ctrl_length]; exact hr.ctrlLen
+  · show ((nd.setCtl i busyCtl).setClaim i key).claim.length = nd.tab.n
+    rw [setClaim_claim_length, setCtl_claim]; exact hr.claimLen
+  · intro hd'; rw [show ((nd.setCtl i busyCtl).setClaim i key).tab.dummy = nd.tab.dummy from rfl, hd] at hd'; cases hd'
+  · intro _ y hy
+    by_cases hyi : y = i
+    · subst hyi
+      right; left
+      refine ⟨key, by rw [hctl, if_pos rfl], by rw [hclaim, if_pos rfl], Or.inl ?_⟩
+      exact (h.slot_empty hd hi he).1
+    · exact (h.slot hd y hy).congr (by rw [hctl, if_neg hyi]) rfl (by rw [hclaim, if_neg hyi])
+  · intro _ j hj
+    change ((nd.setCtl i busyCtl).setClaim i key).tab.ctl (nd.tab.n + j) = emptyCtl ∨
+      (0 ≤ ((nd.setCtl i busyCtl).setClaim i key).tab.ctl (nd.tab.n + j) ∧
+        ((nd.setCtl i busyCtl).setClaim i key).tab.ctl (nd.tab.n + j) = ((nd.setCtl i busyCtl).setClaim i key).tab.ctl j)
+    have h1 : ((nd.setCtl i busyCtl).setClaim i key).tab.ctl (nd.tab.n + j) = nd.tab.ctl (nd.tab.n + j) := by
+      rw [hctl, if_neg (by omega : ¬ nd.tab.n + j = i)]
+    rw [h1]
+    by_cases hji : j = i
+    · subst hji
+      left; exact h.mirror_empty hd hj (by rw [he]; decide)
+    · rw [hctl, if_neg hji]; exact h.mirror hd j hj
+  · intro _ y k hy hk
+    rw [hclaim] at hk
+    by_cases hyi : y = i
+    · subst hyi
+      rw [if_pos rfl] at hk; cases hk
+      exact hle.reachC hreach
+    · rw [if_neg hyi] at hk
+      exact hle.reachC (h.reach hd y k hy hk)
+
+/-! ### construct -/
+
+theorem build_le {nd : Node} (h : NodeOK hash nd) (hd : nd.tab.dummy = false) {i : Nat} (e : Elem)
+    (hi : i < nd.tab.n) (hv : nd.tab.val i = none) : NodeLe nd (nd.build i e) := by
+  have hr := h.real hd
+  refine ⟨rfl, rfl, fun _ _ => rfl, ?_, fun _ _ hk => hk, fun _ hn hne => absurd hn hne, fun _ hx => hx⟩
+  intro y e' hv'
+  rw [build_val _ _ _ (by rw [hr.valsLen]; exact hi)]
+  split
+  · next e1 => subst e1; rw [hv] at hv'; cases hv'
+  · exact hv'
+
+theorem NodeOK.build {nd : Node} (h : NodeOK hash nd) (hd : nd.tab.dummy = false) {i : Nat} (e : Elem)
+    (hi : i < nd.tab.n) (hb : nd.tab.ctl i = busyCtl) (hc : claimAt nd i = some e.1) :
+    NodeOK hash (nd.build i e) := by
+  have hr := h.real hd
+  have hval : ∀ y, (nd.build i e).tab.val y = if y = i then some e else nd.tab.val y :=
+    fun y => build_val _ _ _ (by rw [hr.valsLen]; exact hi) y
+  refine ⟨Or.inr ⟨hd, hr.pow2, hr.ge16, hr.ctrlLen, ?_⟩, hr.claimLen, ?_, ?_, h.mirror, h.reach⟩
+  · show (nd.build i e).tab.vals.length = _
+    rw [build_vals_length]; exact hr.valsLen
+  · intro hd'; rw [build_dummy, hd] at hd'; cases hd'
+  · intro _ y hy
+    by_cases hyi : y = i
+    · subst hyi
+      right; left
+      exact ⟨e.1, hb, hc, Or.inr ⟨e.2, by rw [hval, if_pos rfl]⟩⟩
+    · exact (h.slot hd y hy).congr rfl (by rw [hval, if_neg hyi]) rfl
+
+/-! ### publishing the tag in the main byte -/
+
+theorem st1_le {nd : Node} (h : NodeOK hash nd) (hd : nd.tab.dummy = false) {i : Nat} (tag : Ctl)
+    (hi : i < nd.tab.n) (hb : nd.tab.ctl i = busyCtl) : NodeLe nd (nd.setCtl i tag) := by
+  have hr := h.real hd
+  refine ⟨rfl, rfl, ?_, fun _ _ hv => hv, fun _ _ hk => hk, fun _ hn hne => absurd hn hne, fun _ hx => hx⟩
+  intro x hx
+  rw [setCtl_ctl _ _ _ (by rw [hr.ctrlLen]; omega)]
+  split
+  · next e => subst e; rw [hb] at hx; exact absurd hx (by decide)
+  · rfl
+
+theorem NodeOK.st1 {nd : Node} (h : NodeOK hash nd) (hd : nd.tab.dummy = false) {i : Nat} {e : Elem}
+    (hi : i < nd.tab.n) (hb : nd.tab.ctl i = busyCtl) (hv : nd.tab.val i = some e)
+    (hc : claimAt nd i = some e.1) : NodeOK hash (nd.setCtl i (tagOf (hash e.1))) := by
+  have hr := h.real hd
+  have hle := st1_le h hd (tagOf (hash e.1)) hi hb
+  have hctl : ∀ y, (nd.setCtl i (tagOf (hash e.1))).tab.ctl y = if y = i then tagOf (hash e.1) else nd.tab.ctl y :=
+    fun y => setCtl_ctl _ _ _ (by rw [hr.ctrlLen]; omega) y
+  refine ⟨Or.inr ⟨hd, hr.pow2, hr.ge16, ?_, hr.valsLen⟩, hr.claimLen, ?_, ?_, ?_, ?_⟩
+  · show (nd.setCtl i _).tab.ctrl.length = _
+    rw [setCtl_ctrl_length]; exact hr.ctrlLen
+  · intro hd'; rw [setCtl_dummy, hd] at hd'; cases hd'
+  · intro _ y hy
+    by_cases hyi : y = i
+    · subst hyi
+      right; right
+      exact ⟨e.1, e.2, by rw [hctl, if_pos rfl], hv, hc⟩
+    · exact (h.slot hd y hy).congr (by rw [hctl, if_neg hyi]) rfl rfl
+  · intro _ j hj
+    change (nd.setCtl i (tagOf (hash e.1))).tab.ctl (nd.tab.n + j) = emptyCtl ∨
+      (0 ≤ (nd.setCtl i (tagOf (hash e.1))).tab.ctl (nd.tab.n + j) ∧
+        (nd.setCtl i (tagOf (hash e.1))).tab.ctl (nd.tab.n + j) = (nd.setCtl i (tagOf (hash e.1))).tab.ctl j)
+    have h1 : (nd.setCtl i (tagOf (hash e.1))).tab.ctl (nd.tab.n + j) = nd.tab.ctl (nd.tab.n + j) := by
+      rw [hctl, if_neg (by omega : ¬ nd.tab.n + j = i)]
+    rw [h1]
+    by_cases hji : j = i
+    · subst hji
+      left; exact h.mirror_empty hd hj (by rw [hb]; decide)
+    · rw [hctl, if_neg hji]; exact h.mirror hd j hj
+  · intro _ y k hy hk
+    exact hle.reachC (h.reach hd y k hy hk)
+
+/-! ### publishing the tag in the mirrored byte -/
+
+theorem st2_le {nd : Node} (h : NodeOK hash nd) (hd : nd.tab.dummy = false) {i : Nat} {tag : Ctl}
+    (hi : i < nd.tab.n) (hm : nd.tab.ctl i = tag)
+    (hmir : i < 15 → nd.tab.ctl (nd.tab.n + i) = emptyCtl) :
+    NodeLe nd (nd.setCtl (nd.tab.clonedIndex i) tag) := by
+  have hr := h.real hd
+  have hci := clonedIndex_eq hr.ge16 hi
+  refine ⟨rfl, rfl, ?_, fun _ _ hv => hv, fun _ _ hk => hk, fun _ hn hne => absurd hn hne, fun _ hx => hx⟩
+  intro x hx
+  rw [setCtl_ctl _ _ _ (by rw [hr.ctrlLen, hci]; split <;> omega)]
+  split
+  · next e =>
+    rw [hci] at e
+    split at e
+    · next h15 => subst e; rw [Nat.add_comm, hmir h15] at hx; exact absurd hx (by decide)
+    · subst e; exact hm.symm
+  · rfl
+
+theorem NodeOK.st2 {nd : Node} (h : NodeOK hash nd) (hd : nd.tab.dummy = false) {i : Nat} {tag : Ctl}
+    (hi : i < nd.tab.n) (ht : 0 ≤ tag) (hm : nd.tab.ctl i = tag)
+    (hmir : i < 15 → nd.tab.ctl (nd.tab.n + i) = emptyCtl) :
+    NodeOK hash (nd.setCtl (nd.tab.clonedIndex i) tag) := by
+  have hr := h.real hd
+  have hle := st2_le h hd hi hm hmir
+  have hci := clonedIndex_eq hr.ge16 hi
+  have hctl : ∀ y, (nd.setCtl (nd.tab.clonedIndex i) tag).tab.ctl y =
+      if y = nd.tab.clonedIndex i then tag else nd.tab.ctl y :=
+    fun y => setCtl_ctl _ _ _ (by rw [hr.ctrlLen, hci]; split <;> omega) y
+  -- below `n` nothing changes
+  have hmain : ∀ y, y < nd.tab.n → (nd.setCtl (nd.tab.clonedIndex i) tag).tab.ctl y = nd.tab.ctl y := by
+    intro y hy
+    rw [hctl]
+    split
+    · next e =>
+      rw [hci] at e
+      split at e
+      · omega
+      · subst e; exact hm.symm
+    · rfl
+  refine ⟨Or.inr ⟨hd, hr.pow2, hr.ge16, ?_, hr.valsLen⟩, hr.claimLen, ?_, ?_, ?_, ?_⟩
+  · show (nd.setCtl _ _).tab.ctrl.length = _
+    rw [setCtl_ctrl_length]; exact hr.ctrlLen
+  · intro hd'; rw [setCtl_dummy, hd] at hd'; cases hd'
+  · intro _ y hy
+    exact (h.slot hd y hy).congr (hmain y hy) rfl rfl
+  · intro _ j hj
+    change (nd.setCtl (nd.tab.clonedIndex i) tag).tab.ctl (nd.tab.n + j) = emptyCtl ∨
+      (0 ≤ (nd.setCtl (nd.tab.clonedIndex i) tag).tab.ctl (nd.tab.n + j) ∧
+        (nd.setCtl (nd.tab.clonedIndex i) tag).tab.ctl (nd.tab.n + j) = (nd.setCtl (nd.tab.clonedIndex i) tag).tab.ctl j)
+    rw [hmain j (by have := hr.ge16; omega), hctl]
+    split
+    · next e =>
+      rw [hci] at e
+      split at e
+      · have : j = i := by omega
+        subst this
+        exact Or.inr ⟨ht, hm.symm⟩
+      · omega
+    · exact h.mirror hd j hj
+  · intro _ y k hy hk
+    exact hle.reachC (h.reach hd y k hy hk)
+
+/-- after both stores the bucket is visible to every probe for its key -/
+theorem pub_after_st2 {nd : Node} (h : NodeOK hash nd) (hd : nd.tab.dummy = false) {i : Nat} {e : Elem}
+    (hi : i < nd.tab.n) (hm : nd.tab.ctl i = tagOf (hash e.1)) (hv : nd.tab.val i = some e)
+    (hc : claimAt nd i = some e.1)
+    (hmir : i < 15 → nd.tab.ctl (nd.tab.n + i) = tagOf (hash e.1)) : Pub hash nd i e.1 := by
+  have hr := h.real hd
+  refine ⟨hd, hi, by unfold Table.keyAt; rw [hv]; rfl, hc, hm, ?_⟩
+  obtain ⟨m, j, h1, h2, h3, h4, _⟩ := h.reach hd i e.1 hi hc
+  refine ⟨m, j, h1, h2, h3, h4, ?_⟩
+  have hb : wbase nd.tab.n (nd.tab.baseOf (hash e.1)) m < nd.tab.n := wbase_lt hr.npos
+  by_cases hlt : wbase nd.tab.n (nd.tab.baseOf (hash e.1)) m + j < nd.tab.n
+  · rw [Nat.mod_eq_of_lt hlt] at h3
+    rw [h3]; exact hm
+  · obtain ⟨e1, e2⟩ := ring_index hr.ge16 hb h2 (by omega)
+    rw [e1] at h3
+    have : wbase nd.tab.n (nd.tab.baseOf (hash e.1)) m + j = nd.tab.n + i := by omega
+    rw [this]
+    exact hmir (by omega)
 
 end Babylon.Swiss.Conc
